@@ -163,6 +163,11 @@ def bracket_lexer(stream):
                 whitespacebuf = StringIO()
             tokenbuf.write(character)
         character = stream.read(1)
+    # whatever is pending at the end of the input
+    if len(tokenbuf.getvalue()) > 0:
+        yield tokenbuf.getvalue(), "TOKEN"
+    if len(whitespacebuf.getvalue()) > 0:
+        yield whitespacebuf.getvalue(), "WS"
 
 
 def brackets(in_file, in_encoding, **params):
